@@ -942,6 +942,7 @@ func (fe *FE) execBuiltin(st *State, b *ssa.Builtin, com *ssa.CallCommon, res ss
 			st.vals[res] = mkInt("(strlen " + a.T + ")")
 		case a.Kind == VScalar && a.GoT != nil:
 			if mt, ok := com.Args[0].Type().Underlying().(*types.Map); ok {
+				fe.guardedAccess(st, a.T, "maplen", site)
 				_, _, lb := mapBases(mt)
 				ln := sel(fe.heapTerm(st, lb, arraySort([]string{SInt}, SInt)), a.T)
 				fe.mapLenAxioms(st, mt, a.T, ln)
@@ -974,6 +975,7 @@ func (fe *FE) execBuiltin(st *State, b *ssa.Builtin, com *ssa.CallCommon, res ss
 	case "delete":
 		m := args[0]
 		mt := com.Args[0].Type().Underlying().(*types.Map)
+		fe.guardedAccess(st, m.T, "mapdelete", site)
 		fe.mapDelete(st, mt, m.T, args[1])
 		return true
 	case "print", "println":
@@ -1113,9 +1115,13 @@ func (fe *FE) execLookup(st *State, x *ssa.Lookup, site string) bool {
 			fe.noteGlobalMapRead(st, g, m)
 		}
 	}
+	fe.guardedAccess(st, m.T, "maplookup", site)
 	db, vb, _ := mapBases(mt)
 	ks := fe.S.scalarSort(mt.Key())
-	in := sel(fe.heapTerm(st, db, arraySort([]string{SInt, ks}, SBool)), m.T, k.T)
+	domH := fe.heapTerm(st, db, arraySort([]string{SInt, ks}, SBool))
+	// the nil map has no keys (stores to it panic)
+	st.assume("(= (select " + domH + " 0) ((as const (Array " + ks + " Bool)) false))")
+	in := sel(domH, m.T, k.T)
 	in = and("(not (= "+m.T+" 0))", in)
 	comps := fe.components(mt.Elem())
 	if comps == nil {
@@ -1154,6 +1160,7 @@ func (fe *FE) execMapUpdate(st *State, x *ssa.MapUpdate, site string) bool {
 	mt := x.Map.Type().Underlying().(*types.Map)
 	fe.safety(st, "(not (= "+m.T+" 0))", "nil-map-store@"+site, "assignment to entry in nil map")
 	fe.disciplineMapStore(st, m, mt, site)
+	fe.guardedAccess(st, m.T, "mapstore", site)
 	fe.mapStore(st, mt, m.T, k, v)
 	return true
 }
@@ -1207,6 +1214,7 @@ func (fe *FE) execRange(st *State, x *ssa.Range) bool {
 		fe.errorf("range over %s unsupported", x.X.Type())
 		return false
 	}
+	fe.guardedAccess(st, m.T, "maprange", fe.curPos)
 	ks := fe.S.scalarSort(mt.Key())
 	id := fmt.Sprintf("%d", len(st.ghosts))
 	vis := "$visited_" + x.Name()
